@@ -461,6 +461,7 @@ func TestCheck(t *testing.T) {
 		coverScenario(rep, ext, "cover/ext/1x2", 1, 2),
 	)
 	scs = append(scs, recon[1:]...)
+	scs = append(scs, eventScenarios(rep, report.Bubble(t))...)
 	if report.Thorough() {
 		// Split by the first allow rule so that the scenarios spread over shards.
 		for i := 0; i < len(core.rules)-1; i++ {
